@@ -20,7 +20,7 @@ mod world;
 use harness::{Check, Tier};
 
 fn registry() -> Vec<&'static dyn Check> {
-    vec![&checks::c13::C13, &checks::c14::C14]
+    vec![&checks::c09::C09, &checks::c13::C13, &checks::c14::C14, &checks::c20::C20]
 }
 
 fn seed_from_env() -> u64 {
